@@ -868,6 +868,14 @@ class BranchCoverageInstrumentation(transformer.BranchCoverageInstrumentationAda
         ):
             return
 
+        if (
+            ast_info is not None
+            and isinstance(maybe_jump.lineno, int)
+            and not ast_info.should_cover_line(maybe_jump.lineno)
+        ):
+            # E.g., exception matches, conditional expressions or assertions in excluded code
+            return
+
         if ast_info is not None and not any(
             not isinstance(instr.lineno, int) or ast_info.should_cover_line(instr.lineno)
             for instr in node.original_instructions
